@@ -40,6 +40,7 @@ def gen_pairs(ctx):
              ["multicast", 4, 60], ["node_address", dut], ["node_address", 0o41], ["multicast_level", (own + 1) % 5],
              ["multicast_level", own], ["multicast_level", 4], ["inject_fwd", absent, 70], ["inject_fwd", 0o11 if dut != 0o11 else 0, 1],
              ["inject_two", 0o11 if dut != 0o11 else 0, 1, 193], ["inject_two", 0o2 if dut != 0o2 else 0o21, 70, 131],
+             ["send_mc_addr", 1],
              ["update"]]
         k = 0
         for a in T:
@@ -80,7 +81,7 @@ def gen_cases(ctx):
                 elif r < 0.43:
                     calls.append(["send_invalid", rng.choice([0o7, 0o60, 0o10000])])
                 elif r < 0.46:
-                    calls.append(["send_bad_type"])
+                    calls.append(["send_bad_type"] if rng.random() < 0.5 else ["send_mc_addr", rng.choice([1, 70])])
                 elif r < 0.49:
                     calls.append(["send_too_long"])
                 elif r < 0.62:
@@ -259,6 +260,10 @@ def _run_net(ctx, case, net):
             c = call[0]
             if c == "send":
                 return o.send(Hdr(call[1], call[2]), bytes(call[3]))
+            if c == "send_mc_addr":
+                # a frame addressed to the multicast address but written with automatic routing (no level
+                # given): whatever the node makes of it, it must listen unacknowledged on pipe 0 afterwards
+                return o.send(Hdr(0o100, call[1]), b"to-0o100")
             if c == "send_invalid":
                 return o.send(Hdr(call[1] & 0xFFF, 1), b"x") if call[1] < 0o10000 else o.write(Frame(Hdr(0o7, 1), b"x"))
             if c == "send_bad_type":
